@@ -161,11 +161,19 @@ def _r_forms(tier):
 
 
 def _round_cases(tier):
+    idx = 0
     for idx, (t, form) in enumerate(_r_forms(tier)):
         names = _names(idx % 5)
         rhs = ["0", "2.5"][idx % 2]
         yield {"kind": "expr", "sub": "R", "expr": G.instantiate(t, names), "rhs": rhs,
                "ops": [INEQ[idx % 4], "="], "digits": DIGITS_ALL, "bare": True, "tags": ["R", form]}
+    # a numeral on the left: k op c*x
+    for k in ("0.005", "0.12", "2.99999"):
+        for c in ("0.12", "1.00001", "-1.99999"):
+            idx += 1
+            names = _names(idx % 5)
+            yield {"kind": "expr", "sub": "R", "expr": k, "rhs": G.instantiate(["*", ["$", 0], c], names),
+                   "ops": [INEQ[idx % 4], "="], "digits": DIGITS_ALL, "bare": False, "tags": ["R", "k?cx"]}
 
 
 def _set_menus(sub):
@@ -393,6 +401,42 @@ def same_text(a, b):
         return norm(sexp.read(a)) == norm(sexp.read(b))
     except sexp.SexpError:
         return False
+
+
+def solved_points(inputs, fluents):
+    """Extra evaluation points for sets: for every input equality and every fluent it is linear in, the
+    grid over the other fluents with that fluent solved from the equality -- points on the equality's
+    solution set, where elimination matters (the plain grid meets it rarely)."""
+    seen = set()
+    for c in inputs:
+        if c.op != "=":
+            continue
+        num, den = c.nf
+        for v in c.fluents:
+            alpha, beta, linear = {}, {}, True
+            for m, coef in num.items():
+                e = dict(m).get(v, 0)
+                if e == 0:
+                    beta[m] = coef
+                elif e == 1:
+                    alpha[tuple(x for x in m if x[0] != v)] = coef
+                else:
+                    linear = False
+            if not linear or not alpha:
+                continue
+            others = [f for f in fluents if f != v]
+            for combo in product(GRID, repeat=len(others)):
+                val = dict(zip(others, combo))
+                val[v] = Fraction(0)
+                a = pa.p_eval(alpha, val)
+                if a == 0:
+                    continue
+                val[v] = -pa.p_eval(beta, val) / a
+                key = tuple(val[f] for f in fluents)
+                if key in seen or all(x in GRID for x in key):
+                    continue
+                seen.add(key)
+                yield val
 
 
 class Structure(Exception):
@@ -803,12 +847,16 @@ def judge_set(ctx: Ctx, entry, inputs, got, d, exact_space):
     out_err = []
     for o in outs:
         out_err.append(o.err_nf(rad))
-    judged = skipped = 0
-    for val in grid_points(fluents):
+    judged = skipped = sat = 0
+    points = list(grid_points(fluents))
+    if has_eq and len(inputs) > 1:
+        points.extend(solved_points(inputs, fluents))
+    for val in points:
         vin = [c.value(val) for c in inputs]
         if any(v is None for v in vin):
             continue
         t_in = all(holds(c.op, v) for c, v in zip(inputs, vin))
+        sat += t_in
         t_out = True          # three-valued: True / False / None (unstable)
         undefined = None
         for o, (n2, d2, en, ed) in zip(outs, out_err):
@@ -851,6 +899,9 @@ def judge_set(ctx: Ctx, entry, inputs, got, d, exact_space):
             return
     r.count("grid_points_judged", judged)
     r.count("grid_points_skipped_boundary", skipped)
+    if len(inputs) > 1:
+        r.count("set_points_satisfying_inputs", sat)
+        r.outcome("set-satisfiable-on-points" if sat else "set-unsatisfiable-on-points")
     if len(outs) < len(inputs):
         r.outcome("set-equivalent-with-omission")
     else:
@@ -941,6 +992,17 @@ def check_case(case):
     if case["kind"] == "env":
         return check_env(case, r)
     raise AssertionError(case["kind"])
+
+
+def _has(tag):
+    return lambda case, fail: tag in fail.get("tags", [])
+
+
+# predicates for known_findings.jsonl matchers ({"kind": "predicate", "name": ..., "clause": ...})
+MATCHERS = {name: _has(name) for name in (
+    "rational-coefficient", "power-operator", "int-truncation", "zero-coefficient", "digits-ignored",
+    "digits-type", "numeral-vs-numeral", "constant-truth-value", "no-fluent", "numeral-lhs", "none-operand",
+    "integer-subtraction-read-as-fluent")}
 
 
 if __name__ == "__main__":
